@@ -155,8 +155,17 @@ def random_layout_case(draw, max_pop=30):
     if nb_n * nb_e < 2:
         nb_e = 2
     nb = nb_n * nb_e
-    kind = draw(st.sampled_from(["uniform", "uneven", "sparse", "clustered"]))
-    if kind == "uniform":
+    kind = draw(st.sampled_from(["uniform", "uneven", "sparse", "clustered", "fine_grid"]))
+    if kind == "fine_grid":
+        # a few hundred points scattered over a fine grid of up to 40 x 40 blocks (most blocks empty, block ids far apart)
+        nb_n, nb_e = draw(st.integers(15, 40)), draw(st.integers(15, 40))
+        nb = nb_n * nb_e
+        npts = draw(st.integers(60, 250))
+        where = draw(st.lists(st.integers(0, nb - 1), min_size=npts, max_size=npts))
+        pops = [0] * nb
+        for b in where:
+            pops[b] += 1
+    elif kind == "uniform":
         p = draw(st.integers(1, 6))
         pops = [p] * nb
     elif kind == "uneven":
